@@ -5,7 +5,6 @@ builtin classes and ABCs (they match coq/theories/Core/Obj.v); user classes star
 at 40.  The class table handed to Coq (Gen/ClassTable.v) is dumped from the
 running implementation by harness/classtable.py using these codes.
 """
-from __future__ import annotations
 
 import collections.abc
 import enum
